@@ -1073,6 +1073,10 @@ def _reader_dispatch_shape(cx, rep, port, p, fd):
 
 def _writer_dispatch(cx, rep, port, p):
     w = p.cls('rbql_csv', 'CSVWriter')
+    wm = _csv_writer_model(cx, port)
+    if wm is not None:
+        rep.decide(wm == '', 'writer dispatch', w, 'total over the five policies; quoted->quote_field, quoted_rfc->rfc_quote_field, monocolumn->single field (writer constructed for each policy and evaluated on 6 records)', wm)
+        return
     init = [m for m in w.body if isinstance(m, ast.FunctionDef) and m.name == '__init__'][0]
     seen = {}
     for n in ast.walk(init):
@@ -1142,12 +1146,122 @@ def _policies_in_test(t):
     return out
 
 
+def _csv_writer_model(cx, port):
+    """the Python CSV writer, constructed for each of the five policies over an abstract stream, evaluated on six records (plain, with the
+    delimiter, with a quote, with a line break, with a missing value / a number / a nested list, a single field): what reaches the
+    stream per record is exactly the dialect's line plus one line separator, write() returns True, and the separator-in-field flag is
+    set exactly when a simple / whitespace line is ambiguous.  '' / problem / None (outside the abstract interpreter); Python only"""
+    memo = '_csv_writer_model_' + port
+    if hasattr(cx, memo):
+        return getattr(cx, memo)
+    from .. import absexec as AX
+    res = None
+    try:
+        if port != 'py':
+            raise Undecided('python only', None)
+        p = cx.port(port)
+        cls = p.cls('rbql_csv', 'CSVWriter')
+        ms = {m.name: m for m in cls.body if isinstance(m, ast.FunctionDef)}
+        init, wr = ms['__init__'], ms['write']
+        if len(init.args.args) < 6:
+            raise Undecided('constructor signature', init)
+
+        def q(f, d, rfc):
+            if '"' in f:
+                return '"' + f.replace('"', '""') + '"'
+            if d in f or (rfc and ('\n' in f or '\r' in f)):
+                return '"' + f + '"'
+            return f
+        records = [['a', 'b c', ''], ['d,e', 'q"r'], [None, 5, ['x', 'y']], ['multi\nline', 'z'], ['solo'], ['sp ace'], ['x,y'], ['', ''], ['a', 'b'], ['key:', '=value'], ['k:=v', 'w']]
+        out = ''
+        for policy, delim in (('simple', ','), ('whitespace', ' '), ('quoted', ','), ('quoted_rfc', ','), ('monocolumn', ''), ('simple', ':='), ('quoted', ':=')):
+            selfv, stream = AX.Abs('Self'), AX.Abs('Stream')
+            written = []
+
+            def on_call(ex, node, fname, recv, args):
+                short = node.func.attr if isinstance(node.func, ast.Attribute) else fname
+                if recv is stream and short == 'write' and len(args) == 1:
+                    written.append(args[0])
+                    return None
+                if isinstance(node.func, ast.Name) and node.func.id.endswith('Error'):
+                    return AX.Abs('Exc', cls=node.func.id)
+                if fname.endswith('RbqlIOHandlingError'):
+                    return AX.Abs('Exc', cls='RbqlIOHandlingError')
+                return AX.NOT_HANDLED
+
+            def on_name(ex, node, name):
+                if name == 'PY3':
+                    return True
+                if name in ('basestring', 'unicode'):
+                    return ('builtin', 'str')
+                if name == 'polymorphic_xrange':
+                    return ('builtin', 'range')
+                return AX.NOT_HANDLED
+            ex = AX.Explorer(p, 'rbql_csv', on_call=on_call, on_name=on_name, max_choices=1)
+            ex.cls = 'CSVWriter'
+            ex._script, ex._pos, ex.steps, ex.depth = [], 0, 0, 0
+            ex.run = AX.Run()
+            ex.call_fd(init, [selfv, stream, False, None, delim, policy])
+            for rec in records:
+                import copy
+                if policy in ('simple', 'whitespace'):
+                    ex.run.state[(selfv.uid, 'delim_in_simple_output')] = False       # the flag is judged record by record
+                fields = copy.deepcopy(rec)
+                norm = ['' if f is None else ('|'.join(f) if isinstance(f, list) else str(f)) for f in rec]
+                if policy == 'monocolumn' and not rec:
+                    continue
+                if policy == 'monocolumn' and len(rec) > 1:
+                    want, want_err = None, True
+                else:
+                    want_err = False
+                    want = norm[0] if policy == 'monocolumn' else (delim.join(norm) if policy in ('simple', 'whitespace') else delim.join(q(f, delim, policy == 'quoted_rfc') for f in norm))
+                before = len(written)
+                ex.steps, ex.depth = 0, 0
+                try:
+                    got = ex.call_fd(wr, [selfv, fields])
+                    raised = False
+                except AX.Raised as r_:
+                    got, raised = r_.value, True
+                what = 'policy {} (delimiter {!r}), record {!r}'.format(policy, delim, rec)
+                if want_err:
+                    if not (raised and isinstance(got, AX.Abs) and got.props.get('cls') == 'RbqlIOHandlingError') and not out:
+                        out = '{}: a record of several fields is not rejected with the IO handling error'.format(what)
+                    continue
+                if raised:
+                    out = out or '{}: write() raises'.format(what)
+                    continue
+                text = ''.join(x for x in written[before:] if isinstance(x, str)) if all(isinstance(x, str) for x in written[before:]) else None
+                if text != want + '\n' and not out:
+                    out = '{}: the text handed to the stream is {!r} instead of {!r}'.format(what, text, want + '\n')
+                if got is not True and not out:
+                    out = '{}: write() returns {!r} instead of True'.format(what, got)
+                if policy in ('simple', 'whitespace'):
+                    flag = ex.run.state.get((selfv.uid, 'delim_in_simple_output'), False)
+                    ambiguous = any(delim in f for f in norm)
+                    if bool(flag) != ambiguous and not out:
+                        out = '{}: {} but delim_in_simple_output is {!r} after it: the "fields contain separator" warning is {}'.format(what, 'a field contains the delimiter' if ambiguous else 'no field contains the delimiter', flag, 'lost' if ambiguous else 'spurious')
+        res = out
+    except (Undecided, AX.Cut, AX._NeedChoice, AX.Raised, KeyError, IndexError, TypeError, AttributeError, ValueError) as e_:
+        import os
+        if os.environ.get('RBQL_VERIF_DEBUG'):
+            print('CSV writer model gave up:', type(e_).__name__, str(e_)[:200])
+        res = None
+    setattr(cx, memo, res)
+    return res
+
+
 def rule_cs_writer(cx, rep, port):
     """writer: one line separator per record after the joined fields; delimiter join; lossy-output detection sites"""
     p = cx.port(port)
     w = p.cls('rbql_csv', 'CSVWriter')
     ms = {m.name: m for m in w.body if isinstance(m, ast.FunctionDef)}
     wr = ms['write']
+    wm = _csv_writer_model(cx, port)
+    if wm is not None:
+        for k_ in ('line separator', 'record line', 'delimiter join', 'separator check coverage'):
+            rep.decide(wm == '', k_, wr, 'per record the stream receives the dialect\'s line and one line separator; the separator-in-field flag follows the written fields (writer constructed for 5 policies, 6 records each)', wm)
+        return
+    rep._fallback = 'the CSV writer is outside the abstract interpreter' if port == 'py' else None
     writes = [c for c in walk_no_nested(wr) if isinstance(c, ast.Call) and (call_name(c) or '') == 'self.stream.write']
     seps = [c for c in writes if c.args and dotted(c.args[0]) == 'self.line_separator']
     # (a private helper that write() calls unconditionally belongs to it)
